@@ -25,10 +25,11 @@ CLAIMED = {
  "C03": ("Kernel-checked: the returned slopes satisfy the selected condition at each end (C03_conditions: S'=v, S''=v, continuous third "
          "derivative for NotAKnot incl. the repaired right row; C03_parabola) and are the only slopes whose piecewise cubic is C2 and meets "
          "the end conditions (C03_unique via thomas_unique, C03_unique_values); Periodic: the condensed solve returns slopes satisfying the cyclic C2 system with "
-         "k_0 = k_n-1 (C03_periodic, C03_periodic3; closing denominator proved > 0); C03_defect_witness machine-checks that the pre-repair row is "
+         "k_0 = k_n-1 (C03_periodic, C03_periodic3; closing denominator proved > 0) and are the only such slopes (C03_periodic_unique, maximum-modulus "
+         "argument on the strictly dominant cyclic system); C03_defect_witness machine-checks that the pre-repair row is "
          "not the NotAKnot condition. Exact end-condition residuals on the implementation and comparison with an independent exact spline "
          "(Gaussian elimination on the conditions) for all 25 end pairs, Periodic, per-lane assignments.", "§5 C03",
-         "single-lane theorems (lanes via C08); periodic uniqueness by oracle + correspondence only", "Lean 4 proof (system <-> conditions equivalence, uniqueness, periodic condensation) + exact oracles"),
+         "single-lane theorems, carried to lanes by C08_spline_build_lanes / C08_individual", "Lean 4 proof (system <-> conditions equivalence, uniqueness, periodic condensation) + exact oracles"),
  "C04": ("Theorems C04_struct, C04_blend, C04_node, C04_gridline, C04_transpose for all grids, axes, lanes and in-grid queries; "
          "exact correspondence and blend oracle at Q, f64 runs within the composed rounding bound, transposition metamorphic test.",
          "§5 C04", "rounding as C01 (three nested calc_frac)", "Lean 4 proof (field identities, bracket uniqueness) + exact-rational correspondence"),
@@ -48,15 +49,18 @@ CLAIMED = {
          "f64: rounding of the wrapped argument tested with a tolerance only", "Lean 4 proof (floor/representative uniqueness) + exact periodicity runs"),
  "C08": ("Kernel-checked, for ARBITRARY scalar operations (bit-identity): every model function written with the lane-wise maps commutes "
          "with the lane projection row -> row[j]? and with the single-lane embedding (Lemmas/LanesHom): C08_linear, C08_bilinear, "
-         "C08_spline_solve (shared diagonals and elimination factors), C08_spline_coeffs, C08_spline_eval, C08_other_lanes(_spline). "
+         "C08_spline_solve (shared diagonals and elimination factors), C08_spline_coeffs, C08_spline_eval, C08_other_lanes(_spline); "
+         "C08_individual (per-lane boundaries: lane j of the slopes = solve_for_k of lane j with bounds[j], transposition included); over an "
+         "ordered field C08_spline_build_lanes (the n-d build of validated data succeeds and every lane is the unique solution of its own system). "
          "Runs: lane j of n-d results vs the interpolator built from lane j alone and vs randomised other lanes, exact at Q and bit for "
          "bit at f64, Ix1..Ix6 and IxDyn, length-0/1 axes, per-lane boundaries.", "§5 C08",
-         "Individual boundaries are lane-wise by construction in the model; flattening checked by runs",
+         "row-major flattening of the trailing multi-index of the real arrays is checked by the runs, not modelled",
          "Lean 4 proof (naturality w.r.t. lane homomorphisms) + per-lane differential runs"),
  "C09": ("Kernel-checked, generic over scalar type and strategy: C09_array_elem / C09_array_err (block k of interp_array = interp of element "
          "k; first error wins), C09_scalar, C09_into_eq_alloc, C09_fast_eq_general (accumulating left fold with early exit = per-element "
          "loop), C09_shape / C09_shape_dyn (DimAdd output type and DimExtension::new yield exactly query shape ++ trailing dims). Runs over "
-         "Dq in Ix0..Ix4/IxDyn x D in Ix1..Ix6/IxDyn, zero-length axes, rank > 6, element-by-element agreement of entry points.", "§5 C09",
+         "Dq in Ix0..Ix4/IxDyn x D in Ix1..Ix6/IxDyn, zero-length axes, rank > 6, query arrays and buffers in every memory layout, element-by-element agreement of all entry points "
+         "(interp, interp_into, interp_scalar vs. interp_array), incl. an f64 family with inf/NaN/+-1e308 samples queried exactly on the knots.", "§5 C09",
          "dimension-type algebra modelled from ndarray 0.16 and cross-checked against type_name in C19's enumeration",
          "Lean 4 proof (list induction, finite dimension table) + entry-point agreement runs"),
  "C10": ("Kernel-checked: closed form of both validation chains (C10_validate1_eq/2_eq), success iff Valid (C10_iff_1d/2d), kind of the error "
@@ -85,12 +89,12 @@ CLAIMED = {
          "real-memory frame property rests on safe Rust/ndarray; exercised by poisoned windows", "Lean 4 proof (view decomposition, write/read lemmas) + poisoned-buffer runs"),
  "C15": ("Kernel-checked: Linear — scale data, superposition, any strictly increasing axis relabelling commuting with calc_frac, instantiated "
          "to scaling by c>0 and shifting; Bilinear — scale data; spline end to end for every non-periodic boundary pair — data x c (C15_spline_scale_data), shift (C15_spline_shift), "
-         "axis x c>0 with converted boundary values (C15_spline_scale_axis, by uniqueness), solver additivity (fwd_add/back_add); "
+         "axis x c>0 with converted boundary values (C15_spline_scale_axis, by uniqueness), superposition (C15_spline_add: thomas_add + additive rows); "
          "bit-for-bit half C15_hom_linear_data for ARBITRARY scalar operations. Metamorphic pairs on the real code: exact at Q for every "
          "strategy and boundary configuration (data x c, axis x c with converted boundary values, shifts, superposition), bit-for-bit at "
          "f64 for powers of two, negation and dyadic shifts.", "§5 C15",
-         "spline superposition through the row assembly and the Periodic scalings are checked exactly by the metamorphic runs, not stated as theorems (see PARTIAL in evidence)",
-         "Lean 4 proof (Linear/Bilinear; spline scale/shift/axis-scale end to end) + exact metamorphic runs"),
+         "the Periodic scalings are checked exactly by the metamorphic runs, not stated as theorems (see PARTIAL in evidence)",
+         "Lean 4 proof (Linear/Bilinear; spline scale/add/shift/axis-scale end to end) + exact metamorphic runs"),
  "C16": ("Kernel-checked: C16_linear, C16_bilinear (every query, in range or extrapolated), C16_spline (a cubic meeting the selected end "
          "conditions is reproduced: solver returns p'(x_i) by uniqueness, Hermite form of a cubic is the cubic), C16_notAKnot (n>=4), "
          "C16_natural_line. Exact reproduction checked at Q for random dyadic polynomials, all spacings, extrapolated queries, lanes with "
